@@ -175,10 +175,9 @@ Print Assumptions parse_sprintf_roundtrip_partial.
    round trip -- host "[x" is printed without brackets and "tcp://[x:0" is
    rejected; the repaired scan rejects the input *)
 Theorem bracket_host_roundtrip_refuted :
-  exists u out, url_parse (mkUflags true true true true false) no_resolver (bracket_url ++ [0]) = UVal u /\
-    url_sprintf u = Some out /\
-    url_parse (mkUflags true true true true false) no_resolver (out ++ [0]) = UErr NNG_EINVAL /\
-    url_parse fx_repaired no_resolver (bracket_url ++ [0]) = UErr NNG_EINVAL.
+  (exists u, url_parse fx_bracket_pinned no_resolver (bracket_url ++ [0]) = UVal u) /\
+  reparse fx_bracket_pinned (bracket_url ++ [0]) = UErr NNG_EINVAL /\
+  url_parse fx_repaired no_resolver (bracket_url ++ [0]) = UErr NNG_EINVAL.
 Proof. exact bracket_host_witness. Qed.
 Print Assumptions bracket_host_roundtrip_refuted.
 
